@@ -1,10 +1,10 @@
 package harness
 
 import (
-	"strings"
 	"encoding/json"
 	"fmt"
 	"os"
+	"strings"
 	"sync"
 	"testing"
 
